@@ -1,12 +1,18 @@
 package main
 
 import (
+	"bufio"
+	"encoding/json"
+	"errors"
 	"fmt"
 	"io"
 	"math"
+	"os"
+	"os/exec"
 	"sort"
 	"strings"
 	"sync/atomic"
+	"time"
 
 	bip39 "github.com/islishude/bip39"
 
@@ -24,10 +30,18 @@ type countingReader struct {
 	fail         error
 }
 
+// errReadBudget stops a caller that asks the harness source for an absurd amount of data (a size
+// gate that lets a huge count through must show up as a failed call, not as a harness that tries to
+// produce terabytes).
+var errReadBudget = errors.New("verif: more than 1 MiB requested from the harness source")
+
 func (r *countingReader) Read(p []byte) (int, error) {
 	r.calls++
 	if r.fail != nil {
 		return 0, r.fail
+	}
+	if len(p) > 1<<20 || r.bytes > 1<<20 {
+		return 0, errReadBudget
 	}
 	for i := range p {
 		p[i] = byte(r.bytes*7 + 3)
@@ -157,17 +171,54 @@ func runC09(c *Ctx) {
 		cl = append(cl, n)
 	}
 	sort.Ints(cl)
-	// sequential: the source is a process global
+	// sequential: the source is a process global. Counts beyond +-4096 are evaluated in a
+	// sandboxed child process (small address-space limit, per-call deadline): a size gate that
+	// lets such a count through makes the package allocate gigabytes or loop, which has to be
+	// reported as the violation it is instead of taking the check down with it.
+	var big []countCall
+	for _, n := range cl {
+		if n > 4096 || n < -4096 {
+			for l := 0; l < ref.NLang; l++ {
+				big = append(big, countCall{N: n, L: l})
+			}
+		}
+	}
+	bigRes := runCountSandbox(c, big)
 	for _, n := range cl {
 		for l := 0; l < ref.NLang; l++ {
-			src := &countingReader{}
-			prev := bip39.VerifSwapRandSource(src)
 			var got string
 			var err error
-			p := call(func() { got, err = bip39.NewMnemonic(n, Langs[l]) })
-			bip39.VerifSwapRandSource(prev)
-			c.Eval(1)
-			ds.Add("cnt", fmt.Sprint(n, l))
+			var p string
+			src := &countingReader{}
+			if n > 4096 || n < -4096 {
+				r, ok := bigRes[countCall{N: n, L: l}]
+				c.Eval(1)
+				ds.Add("cnt", fmt.Sprint(n, l))
+				if !ok || r.Died != "" {
+					why := "no result"
+					if ok {
+						why = r.Died
+					}
+					c.Violate(fmt.Sprintf("wordcount:%d:%d", n, l), fmt.Sprintf("NewMnemonic(%d, %s) did not return normally: %s", n, ref.LangNames[l], why),
+						map[string]interface{}{"kind": "wordcount", "count": n, "lang": l})
+					continue
+				}
+				got, p = r.Got, r.Panic
+				src.calls, src.bytes = r.Calls, r.Bytes
+				switch {
+				case r.Err == "":
+				case r.IsWordLen:
+					err = bip39.ErrWordLen
+				default:
+					err = errors.New(r.Err)
+				}
+			} else {
+				prev := bip39.VerifSwapRandSource(src)
+				p = call(func() { got, err = bip39.NewMnemonic(n, Langs[l]) })
+				bip39.VerifSwapRandSource(prev)
+				c.Eval(1)
+				ds.Add("cnt", fmt.Sprint(n, l))
+			}
 			bad := ""
 			if p != "" {
 				bad = "panic: " + p
@@ -287,4 +338,142 @@ func runC16(c *Ctx) {
 	c.Sample(4, map[string]interface{}{"value": 9, "expected": "Portuguese"})
 	c.Sample(4, map[string]interface{}{"value": -1, "expected": "Language(-1)"})
 	c.Sample(4, map[string]interface{}{"value": math.MinInt, "expected": fmt.Sprintf("Language(%d)", math.MinInt)})
+}
+
+// ---- sandbox for calls with extreme word counts -------------------------------------------
+
+type countCall struct{ N, L int }
+
+type countResult struct {
+	N, L      int
+	Got       string
+	Err       string
+	IsWordLen bool
+	Panic     string
+	Calls     int
+	Bytes     int
+	Died      string `json:",omitempty"`
+}
+
+func init() { subcommands["bigcounts"] = bigCountsMain }
+
+// bigCountsMain: worker -prop bigcounts <file>; one "S n l" line before and one "R <json>" line
+// after every NewMnemonic(n, lang) call listed in the file.
+func bigCountsMain(args []string) int {
+	data, err := os.ReadFile(args[0])
+	if err != nil {
+		return 2
+	}
+	var calls []countCall
+	if json.Unmarshal(data, &calls) != nil {
+		return 2
+	}
+	for _, cc := range calls {
+		fmt.Printf("S %d %d\n", cc.N, cc.L)
+		src := &countingReader{}
+		prev := bip39.VerifSwapRandSource(src)
+		var got string
+		var e error
+		p := call(func() { got, e = bip39.NewMnemonic(cc.N, Langs[cc.L]) })
+		bip39.VerifSwapRandSource(prev)
+		r := countResult{N: cc.N, L: cc.L, Got: got, Panic: p, Calls: src.calls, Bytes: src.bytes}
+		if e != nil {
+			r.Err = e.Error()
+			r.IsWordLen = errorsIs(e, bip39.ErrWordLen)
+		}
+		out, _ := json.Marshal(&r)
+		fmt.Printf("R %s\n", out)
+	}
+	return 0
+}
+
+// runCountSandbox evaluates the calls in child processes with a 3 GiB address-space limit and a
+// 20 s deadline per call; a child that dies or stalls is restarted after the offending call.
+func runCountSandbox(c *Ctx, calls []countCall) map[countCall]countResult {
+	res := map[countCall]countResult{}
+	dir := os.Getenv("VERIF_SCRATCH_DIR")
+	for len(calls) > 0 {
+		f, err := os.CreateTemp(dir, "bigcounts-")
+		if err != nil {
+			c.Fatal("sandbox: %v", err)
+		}
+		data, _ := json.Marshal(calls)
+		f.Write(data)
+		f.Close()
+		cmd := exec.Command(os.Args[0], "-prop", "bigcounts", f.Name())
+		cmd.Env = append(os.Environ(), "VERIF_AS_LIMIT_GB=3", "GOMAXPROCS=2")
+		stdout, err := cmd.StdoutPipe()
+		if err != nil {
+			c.Fatal("sandbox: %v", err)
+		}
+		var stderr strings.Builder
+		cmd.Stderr = &stderr
+		if err := cmd.Start(); err != nil {
+			c.Fatal("sandbox: %v", err)
+		}
+		lines := make(chan string, 64)
+		go func() {
+			sc := bufio.NewScanner(stdout)
+			sc.Buffer(make([]byte, 1<<20), 1<<26)
+			for sc.Scan() {
+				lines <- sc.Text()
+			}
+			close(lines)
+		}()
+		done := 0
+		inflight := -1
+		died := ""
+	loop:
+		for {
+			select {
+			case l, ok := <-lines:
+				if !ok {
+					if done < len(calls) {
+						died = "the process died: " + lastLine(stderr.String())
+					}
+					break loop
+				}
+				if strings.HasPrefix(l, "S ") {
+					inflight = done
+				} else if strings.HasPrefix(l, "R ") {
+					var r countResult
+					if json.Unmarshal([]byte(l[2:]), &r) == nil {
+						res[countCall{r.N, r.L}] = r
+					}
+					done++
+					inflight = -1
+				}
+			case <-time.After(20 * time.Second):
+				died = "no answer within 20 s (endless loop or an enormous allocation being filled)"
+				break loop
+			}
+		}
+		cmd.Process.Kill()
+		cmd.Wait()
+		os.Remove(f.Name())
+		if died == "" {
+			break
+		}
+		if inflight < 0 {
+			inflight = done
+		}
+		if inflight < len(calls) {
+			cc := calls[inflight]
+			res[cc] = countResult{N: cc.N, L: cc.L, Died: died}
+			calls = calls[inflight+1:]
+		} else {
+			break
+		}
+	}
+	return res
+}
+
+func lastLine(s string) string {
+	for _, l := range strings.Split(s, "\n") {
+		if strings.HasPrefix(l, "fatal error") || strings.HasPrefix(l, "panic") || strings.HasPrefix(l, "runtime:") {
+			return l
+		}
+	}
+	l := strings.Split(strings.TrimSpace(s), "\n")
+	return l[len(l)-1]
 }
